@@ -465,7 +465,7 @@ def r_small_quantile(ctx, db, est, roles, grid):
                 def thunk():
                     return call(m, qp, [VRef(cell, (), False)]), obs
                 return thunk, {}
-            paths, stats = explore(db, setup2, Config(release=True), 500)
+            paths, stats = explore(db, setup2, Config(release=True, fold_inexact=True), 500)
             ctx.count_run(Run(qp, paths, stats, "grid"))
             for p in paths:
                 if p.status != "return":
